@@ -1184,6 +1184,62 @@ def b_dedupe(S):
         extra_params=[("{G}", "Type"), ("{K}", "Type"), ("[BEq K]", ""), ("key", "G → K")], slice_from="traces_set = set()", default_num="Nat", join="tuple", nat_sub=True)
 
 
+def b_run_validation(S):
+    """the frame-level plumbing of `Validation.run_validation` around the row loop (which item ValidationPass regenerates): dropping stale
+    error columns, MAJOR validators in the first pass / ALL in the second unless validators were chosen, the empty-frame exit, the
+    empty-target-area exit (only when `allow_empty_area` is off), the pass, the recursion for the second pass on the geometries of the
+    first (its own `allow_empty_area` left at the default), the result. The row loop, the recursive call and `is_empty_area` are parameters."""
+    src0 = S[TVAL]
+    subs = [
+        (r"\bself\.traces\b", "self_traces"),
+        (r"self\.determine_validation_nodes = ", "determine_validation_nodes = "),
+        (r"    all_errors: List\[List\[str\]\] = \[\]\n(?:.*\n)*?        all_geoms\.append\(geom\)\n", "    all_errors, all_geoms = PASS\n"),
+        (r"    validated_gdf = self_traces\.copy\(\)\n    validated_gdf\[self\.ERROR_COLUMN\] = all_errors\n    validated_gdf\[self\.GEOMETRY_COLUMN\] = all_geoms\n", "    validated_gdf = VALIDATED\n"),
+        (r"        self_traces = validated_gdf\n        # Run validation again\n        validated_gdf = self\.run_validation\(\n            first_pass=False, choose_validators=choose_validators\n        \)\n", "        validated_gdf = RECUR\n"),
+        (r"    validated_gdf\[self\.ERROR_COLUMN\] = \[\n        tuple\(value\) for value in validated_gdf\[self\.ERROR_COLUMN\]\.values\n    \]\n", ""),
+        (r"        empty_gdf: gpd\.GeoDataFrame = self_traces\.copy\(\)\n        return empty_gdf\n", "        return UNTOUCHED\n"),
+        (r"        empty_gdf: gpd\.GeoDataFrame = self_traces\.copy\(\)\n(?:        #.*\n)*        empty_gdf\[self\.ERROR_COLUMN\] = \[\n            \(trace_validators\.EmptyTargetAreaValidator\.ERROR,\)\n        \] \* empty_gdf\.shape\[0\]\n        return empty_gdf\n", "        return EMPTYAREA\n"),
+    ]
+    txt = standalone(src0, "Validation.run_validation")
+    for pat, rep in subs:
+        txt, n = re.subn(pat, rep, txt)
+        if n < 1:
+            raise Untranslatable(f"run_validation: rewriting step did not apply: {pat[:60]}")
+    for marker in ("PASS", "VALIDATED", "RECUR", "UNTOUCHED", "EMPTYAREA"):
+        if len(re.findall(r"\b" + marker + r"\b", txt)) != 1:
+            raise Untranslatable(f"run_validation: marker {marker} does not occur exactly once after rewriting")
+    if "self.run_validation" in txt or re.search(r"self_traces = (?!traces\b)", txt):
+        raise Untranslatable("run_validation: an assignment to self.traces or a recursive call survived the rewriting")
+    ROWS = "List (G × List String)"
+    C = {
+        "(self.ERROR_COLUMN, self.ERROR_COLUMN_TRUNC)": "[err_column, err_column_trunc]",
+        "err_col in self_traces.columns": "(has_col err_col)",
+        "self_traces.drop(columns=err_col)": "self_traces",
+        "MAJOR_VALIDATORS": "major", "ALL_VALIDATORS": "all_",
+        "any((validator in VALIDATION_REQUIRES_NODES for validator in validators))": "(List.any validators requires_nodes)",
+        "self_traces.shape[0]": "(List.length self_traces)",
+        "is_empty_area(area=self.area, traces=self_traces)": "(area_empty self_traces)",
+        "UNTOUCHED": "(\"untouched\", List.map (fun g => (g, [])) self_traces)",
+        "EMPTYAREA": "(\"emptyarea\", List.map (fun g => (g, [empty_err])) self_traces)",
+        "PASS": "(pass_ validators self_traces)",
+        "VALIDATED": "(\"validated\", List.zip all_geoms all_errors)",
+        "RECUR": "(recur all_geoms)",
+    }
+    T = {"(self.ERROR_COLUMN, self.ERROR_COLUMN_TRUNC)": "List String", "err_col": "String", "err_col in self_traces.columns": "Bool", "self_traces.drop(columns=err_col)": "List G",
+         "traces": "List G", "MAJOR_VALIDATORS": "List V", "ALL_VALIDATORS": "List V", "validators": "List V",
+         "any((validator in VALIDATION_REQUIRES_NODES for validator in validators))": "Bool", "determine_validation_nodes": "Bool", "self_traces.shape[0]": "Nat",
+         "is_empty_area(area=self.area, traces=self_traces)": "Bool", "UNTOUCHED": f"String × {ROWS}", "EMPTYAREA": f"String × {ROWS}",
+         "PASS": "List (List String) × List G", "all_errors": "List (List String)", "all_geoms": "List G", "VALIDATED": f"String × {ROWS}", "validated_gdf": f"String × {ROWS}",
+         "RECUR": f"String × {ROWS}"}
+    return translate_function(
+        txt, "run_validation", "run_validation_frame",
+        {"self_traces": "List G", "first_pass": "Bool", "choose_validators": "Option (List V)", "allow_empty_area": "Bool"}, f"String × {ROWS}", C, types=T,
+        extra_params=[("{G}", "Type"), ("{V}", "Type"), ("err_column", "String"), ("err_column_trunc", "String"), ("has_col", "String → Bool"), ("major", "List V"), ("all_", "List V"),
+                      ("requires_nodes", "V → Bool"), ("area_empty", "List G → Bool"), ("empty_err", "String"), ("pass_", "List V → List G → List (List String) × List G"),
+                      ("recur", f"List G → String × {ROWS}")],
+        slice_from="for err_col in", default_num="Nat", join="tuple")
+
+
 def b_determine_intersect(S):
     """`determine_intersect`: which ordered pair of sets an X/Y node between two sets is recorded under, or ValueError"""
     fn = find_func(ast.parse(S[REL]), "determine_intersect")
@@ -1846,6 +1902,7 @@ ITEMS: List[Item] = [
     Item("ValidatorTable", TVALS, ["C09", "C13", "C02"], b_validator_table, extra_modules=[TVAL]),
     Item("ValidateStep", TVAL, ["C09", "C13"], b_validate_step),
     Item("ValidationPass", TVAL, ["C09", "C13"], b_validation_pass),
+    Item("RunValidation", TVAL, ["C09", "C13"], b_run_validation),
     Item("UnderlapValidator", TVALS, ["C10", "C13"], b_underlap_validator),
     Item("ValidationUtils", TVU, ["C10", "C16"], b_validation_utils),
     Item("SharpCorners", TVALS, ["C10"], b_sharp_corners),
